@@ -48,13 +48,13 @@ def run(facts, tier):
         e.violate("floor-jiff", f"only {n_jiff} calls into the calendar library found in jaq_std::time")
     rules.append(e.finish())
 
-    # R20.4 all natives go through the two conversion kernels
-    k = Rule("R20.4", "every time native converts numbers to instants through `epoch_to_timestamp`/`array_to_datetime` and instants to numbers through `timestamp_to_epoch` (one checked conversion kernel each way)", floor=6)
+    # R20.4 natives do not build instants from raw numbers themselves
+    k = Rule("R20.4", "no time native builds an instant from raw numbers itself (Timestamp::from_* / DateTime::new inside the closure of a registered native): "
+             "that happens only in separate conversion functions, which are the ones the numeric rules N20.1 examine, and there are conversion functions for both directions", floor=3)
     reg = native_registry(facts)
-    KERNEL_IN = {"jaq_std::time::epoch_to_timestamp", "jaq_std::time::array_to_datetime"}
-    KERNEL_OUT = {"jaq_std::time::timestamp_to_epoch", "jaq_std::time::datetime_to_array"}
+    registry_fns = {body_def for _, (name, body_def, sp) in reg.items()}
     RAW_IN = re.compile(r"^jiff::timestamp::Timestamp::(from_second|from_microsecond|from_millisecond|from_nanosecond|new|constant)$|^jiff::civil::datetime::DateTime::(new|constant)$")
-    callers = {}
+    kernels = set()
     for c, j in facts.all_mir():
         if not MOD.match(j["def"]):
             continue
@@ -63,15 +63,13 @@ def run(facts, tier):
             callee = Body.callee(t) or ""
             if RAW_IN.search(callee):
                 fn = j["def"].split("::{closure")[0]
-                ok = fn in KERNEL_IN or fn == "jaq_std::time::to_iso8601"
+                ok = fn not in registry_fns
+                kernels.add(fn)
                 k.examined((fn, callee), True, {"fn": fn, "constructs": callee})
                 if not ok:
-                    k.violate(f"raw-constructor/{fn}", f"`{fn}` builds an instant from raw numbers with `{callee}` outside the checked conversion kernels", where=t["sp"])
-    for kn in KERNEL_IN | KERNEL_OUT:
-        if facts.mir_fn(kn) is None:
-            k.missing_anchor(kn)
-        else:
-            k.examined(("anchor", kn), True)
+                    k.violate(f"raw-constructor/{callee.split('::')[-1]}", f"a native registered in `{fn}` builds an instant from raw numbers with `{callee}` itself instead of going through a conversion function", where=t["sp"])
+    if not kernels:
+        k.missing_anchor("a function of jaq_std::time that constructs instants (Timestamp::from_* / DateTime::new)")
     rules.append(k.finish())
 
     explanation = ("Calendar correctness and inversion are value-level and not decided. Decided on jaq_std::time: numeric discipline of everything computed from user numbers (shared taint engine), "
